@@ -188,6 +188,16 @@ func (en *Engine) effectsStep(f *ssa.Function) bool {
 	key := funcKey(f)
 	ct := en.cs.Funcs[key]
 	if ct != nil && !ct.Inline && !ct.ModAll && !ct.ModInferred && (len(ct.Modifies) > 0 || ct.Trusted || f.Blocks == nil) {
+		if en.effByClause == nil {
+			en.effByClause = map[string]string{}
+		}
+		if f.Blocks != nil && en.inRepo(f) {
+			how := "its modifies clause, proved against the body by the frame obligations of that function in the checks of " + strings.Join(ct.Props, ", ")
+			if ct.Trusted {
+				how = "its trusted contract (body not verified)"
+			}
+			en.effByClause[key] = how
+		}
 		for _, m := range ct.Modifies {
 			ts, ok := en.lvalueComps(m, f)
 			if !ok {
